@@ -41,10 +41,13 @@ def configs(tier, seed):
         out.append(dict(name="300 distinct names", h="many", N=300))
         out.append(dict(name="combine / concat, concrete names n=2", h="combine", n=2, pool=True))
         out.append(dict(name="treat n=1 m=2 names of unequal length", h="treat", n=1, m=2, pool=True))
+        out.append(dict(name="plate ids after Plate.merge, 4 rows", h="merge", rows=4, merges=2))
         out.append(dict(name="one_d n=2 m=2 names of unequal length", h="one_d", n=2, m=2, pool=True))
     else:
         out.append(dict(name="300 distinct names", h="many", N=300))
         out.append(dict(name="1000 distinct names", h="many", N=1000))
+        out.append(dict(name="plate ids after Plate.merge, 4 rows", h="merge", rows=4, merges=3))
+        out.append(dict(name="plate ids after Plate.merge, 5 rows", h="merge", rows=5, merges=2))
         out.append(dict(name="combine / concat, concrete names n=3", h="combine", n=3, pool=True))
         out.append(dict(name="treat n=2 m=2 names of unequal length", h="treat", n=2, m=2, pool=True))
         out.append(dict(name="one_d n=2 m=3 names of unequal length", h="one_d", n=2, m=3, pool=True))
@@ -82,6 +85,9 @@ def fixtures(cfg):
     if cfg["h"] == "one_d":
         return [{"nm%d" % i: v for i, v in enumerate(["a", "b", "a", "c", "", "b", "zz"])},
                 {"nm%d" % i: v for i, v in enumerate(["z", "y", "x", "y", "x", "w", "v"])}]
+    if cfg["h"] == "merge":
+        return [dict(pn0="a", pn1="d", pn2="b", pn3="c", pn4="d", mg0_a=0, mg0_b=3, mg1_a=1, mg1_b=0, mg2_a=0, mg2_b=1),
+                dict(pn0="q", pn1="q", pn2="a", pn3="z", pn4="m", mg0_a=1, mg0_b=0, mg1_a=0, mg1_b=1, mg2_a=0, mg2_b=1)]
     if cfg["h"] == "screen":
         vals = dict(ctrl="", sn0="s1", sn1="s0", sn2="s1", pn0="p", pn1="q", pn2="p")
         names = ["a", "b", "", "a", "b", "c", "a", "a", "c", "d", "a", "b"]
@@ -294,6 +300,59 @@ def h_combine(ctx, cfg):
     return n
 
 
+def h_merge(ctx, cfg):
+    """Plate.merge rewrites the parent screen's plate names in place: the screen that results is a screen like any other,
+    its plate ids the dense range 0..n-1 with equal ids iff equal plate name, decoding through its plate mapping.
+    Plate names are symbolic (any order), the two plates of every merge are chosen by the solver."""
+    np = ctx.np
+    data = ctx.mod("batchie.data")
+    R = cfg["rows"]
+    pn = [ctx.str("pn%d" % r) for r in range(R)]
+    s = data.Screen(treatment_names=np.array([["t%d" % r] for r in range(R)], dtype=str), treatment_doses=np.array([[1.0]] * R, dtype=float),
+                    sample_names=np.array(["s%d" % (r % 2) for r in range(R)], dtype=str), plate_names=np.array(pn),
+                    control_treatment_name="ctrl")
+    names = list(pn)
+    done = 0
+    for m in range(cfg["merges"]):
+        plates = list(s.plates)
+        n = len(plates)
+        if n < 2:
+            break
+        i = int(ctx.int("mg%d_a" % m, 0, n - 1))
+        j = int(ctx.int("mg%d_b" % m, 0, n - 1))
+        if i == j:
+            ctx.assume(False)
+        keep, gone = plates[i], plates[j]
+        sel = [bool(a) or bool(b) for a, b in zip(keep.selection_vector.tolist(), gone.selection_vector.tolist())]
+        kept_name, gone_name = keep.plate_name, gone.plate_name
+        keep.merge(gone)
+        done += 1
+        got_names = s.plate_names.tolist()
+        # which of the two names the merged plate carries is not specified: all its rows carry the same one
+        first = [r for r in range(R) if sel[r]][0]
+        ctx.prove(ctx.Or(got_names[first] == kept_name, got_names[first] == gone_name), "the merged plate carries the name of one of the two plates",
+                  key="merge: plate names")
+        names = [got_names[first] if sel[r] else names[r] for r in range(R)]
+        for r in range(R):
+            ctx.prove(got_names[r] == names[r], "after a merge the rows of both plates carry one plate name, all other rows their own",
+                      key="merge: plate names")
+        pids = s.plate_ids.tolist()
+        for r in range(R):
+            ctx.prove(ctx.And(pids[r] >= 0, pids[r] < n - 1), "after a merge plate ids lie in 0..n-1 for the n plates that remain",
+                      key="merge: plate ids not dense")
+            for r2 in range(r):
+                ctx.prove(_iff(ctx, names[r] == names[r2], pids[r] == pids[r2]), "after a merge: equal plate ids iff equal plate names",
+                          key="merge: plate ids not one per name")
+        ctx.prove(len(set(int(x) for x in pids)) == n - 1 and int(s.n_plates) == n - 1,
+                  "after a merge the plate ids are exactly 0..n-1 and n_plates counts them", key="merge: plate ids not dense")
+        ctx.prove(sorted(int(p.plate_id) for p in s.plates) == list(range(n - 1)), "the plates of the merged screen carry the ids 0..n-1",
+                  key="merge: plate ids not dense")
+        if cfg.get("mapping", True):
+            pmn, pmi = [x.tolist() for x in s.plate_mapping]
+            _check_1d(ctx, names, pids, pmn, pmi, "merge: plate mapping: ")
+    return done
+
+
 def h_many(ctx, cfg):
     """three hundred distinct names (ids beyond every narrow integer range), each used once or twice, in a scrambled order:
     ids are dense 0..n-1, equal names get equal ids, the mappings decode every id; one dose symbolic"""
@@ -399,4 +458,4 @@ def h_badmap(ctx, cfg):
 
 
 def run(ctx, cfg):
-    return {"treat": h_treat, "one_d": h_one_d, "screen": h_screen, "badmap": h_badmap, "many": h_many, "combine": h_combine}[cfg["h"]](ctx, cfg)
+    return {"treat": h_treat, "one_d": h_one_d, "screen": h_screen, "badmap": h_badmap, "many": h_many, "merge": h_merge, "combine": h_combine}[cfg["h"]](ctx, cfg)
